@@ -1,9 +1,86 @@
-(* C05 (placeholder while the proofs are being moved in) *)
-From Coq Require Import ZArith QArith Qcanon List Bool.
-From Catii Require Import Cube.Dim Cube.Direct Cube.FFuncs Cube.XCube Cube.AggCheck.
+(* C05 - results are independent of which category is stored as common.
+
+   `shift_common v` is the operation of the index model IIndex/OpsA.v (proved to keep well-formedness and the
+   dense array in IIndex/ShiftCommon.v, property C06); Cube/AggShift.v turns a well-formed 1-D index into the
+   one-axis cube dimension the walk sees (dict order kept) and shows it has the same dense column.  With
+   ffunc_A_direct (C03) - the index cube is a function of the dense columns only, whichever cells the walk
+   visits and whichever it reconstructs by differencing - re-encoding changes nothing.
+   Hypotheses: is1d N i = well-formed (iindex.validate), N rows, one axis; covers = listed values and common
+   inside the extents; the new common values inside the extents too (a value beyond the explicit extent is an
+   IndexError; with an inferred shape the cube only grows by missing cells: C05_extra_cells_missing). *)
+From Coq Require Import ZArith QArith Qcanon List Bool Lia.
+From Catii Require Import Base.Sorted IIndex.Model IIndex.ModelFacts IIndex.OpsA IIndex.ShiftCommon.
+From Catii Require Import Cube.Dim Cube.Walk Cube.WalkProofs Cube.Region Cube.Count Cube.CountProofs
+     Cube.Direct Cube.FFuncs Cube.XCube Cube.AggBase Cube.AggProofs Cube.AggShift Cube.AggCheck.
 Import ListNotations.
 Open Scope Z_scope.
-Example C05_smoke : agg_check_any (mk ASum 3 [([(1, [0; 2])], 0)] [2] false [[1; 0; 1]] [2] false
-   (FOne (MNaN [Some (q 1 2); None; Some (q 3 1)])) WNone true FmtNaN
-   (OCells [None] [(1, [Some (q 7 2)])]) (OCells [None] [(1, [Some (q 7 2)])])) = true.
+
+(* the bridge: a well-formed 1-D index is a well-formed dimension with the same dense column *)
+Theorem C05_dimension_of_index : forall N i, is1d N i ->
+  dim_wf N (dim_of_iindex i) /\ forall r, dim_dense (dim_of_iindex i) r = dense i r [].
+Proof.
+  exact (fun N i I => conj (dim_of_iindex_wf N i I)
+                           (fun r => dim_of_iindex_dense i r (proj1 I) (proj2 (proj2 I)))).
+Qed.
+Print Assumptions C05_dimension_of_index.
+
+(* any two encodings of the same dense columns give the same cube (values and missing marks, every format) *)
+Theorem C05_encoding_independent : forall A N dims dims' shape h f w ign fm,
+  0 <= N -> Forall (dim_wf N) dims -> Forall (dim_wf N) dims' -> Region.covers shape dims -> Region.covers shape dims' ->
+  agg_fact_ok A f ->
+  Forall2 (fun d d' => same_on N (dim_dense d) (dim_dense d')) dims dims' ->
+  ccube_report A N dims shape h f w ign fm = ccube_report A N dims' shape h f w ign fm.
+Proof. exact ccube_report_reencode. Qed.
+Print Assumptions C05_encoding_independent.
+
+(* C05: every dimension d_k replaced by d_k.shift_common(v_k), v_k any value inside the extent - frequent, rare or
+   absent from the data; v_k = d_k.common leaves d_k as it is, so "one dimension d, any v" is an instance *)
+Theorem C05_shift_common : forall A N idxs vs shape h f w ign fm,
+  0 <= N -> Forall (is1d N) idxs -> Region.covers shape (map dim_of_iindex idxs) ->
+  Forall2 (fun v e => 0 <= v < e) vs shape -> agg_fact_ok A f ->
+  ccube_agg N (map dim_of_iindex (shifted idxs vs)) shape A h f w ign
+    = ccube_agg N (map dim_of_iindex idxs) shape A h f w ign
+  /\ ccube_report A N (map dim_of_iindex (shifted idxs vs)) shape h f w ign fm
+     = ccube_report A N (map dim_of_iindex idxs) shape h f w ign fm.
+Proof. exact AggShift.C05_shift_common. Qed.
+Print Assumptions C05_shift_common.
+
+(* ... and neither does re-normalising afterwards with the automatic choice shift_common() *)
+Theorem C05_shift_common_auto : forall A N idxs shape h f w ign fm,
+  0 <= N -> Forall (is1d N) idxs -> Region.covers shape (map dim_of_iindex idxs) ->
+  Forall2 (fun v e => 0 <= v < e) (map auto_common idxs) shape -> agg_fact_ok A f ->
+  ccube_report A N (map dim_of_iindex (renormalised idxs)) shape h f w ign fm
+  = ccube_report A N (map dim_of_iindex idxs) shape h f w ign fm.
+Proof. exact AggShift.C05_shift_common_auto. Qed.
+Print Assumptions C05_shift_common_auto.
+
+(* a value outside the data enlarges an inferred shape: the additional cells hold no row and are missing *)
+Theorem C05_extra_cells_missing : forall wt fx A ign, cell_missing wt fx A ign [] = true.
+Proof. exact empty_cell_missing. Qed.
+Print Assumptions C05_extra_cells_missing.
+
+(* ---- non-vacuity: two real-shaped indexes over 5 rows, commons 0 and 1; re-encoded to the rare value 2 of the
+        second dimension and to the frequent value 1 of the first ---- *)
+Definition ex_i0 : iindex := {| entries := [((1, []), [0; 2; 4])]; common := 0; nrows := 5; hshape := [] |}.
+Definition ex_i1 : iindex := {| entries := [((2, []), [2]); ((0, []), [1; 3])]; common := 1; nrows := 5; hshape := [] |}.
+Definition ex_fact : fact := FOne (MNaN [Some (q 1 2); Some (q 3 1); None; Some (q (-2) 1); Some (q 5 4)]).
+Definition ex_w : weights := WArr (MNaN [Some (q 1 1); Some (q 2 1); Some (q 0 1); None; Some (q 1 2)]).
+
+Example C05_hypotheses_hold :
+  0 <= 5 /\ Forall (is1d 5) [ex_i0; ex_i1] /\ Region.covers [2; 3] (map dim_of_iindex [ex_i0; ex_i1])
+  /\ Forall2 (fun v e => 0 <= v < e) [1; 2] [2; 3] /\ agg_fact_ok AMean ex_fact.
+Proof.
+  split; [lia|]. split.
+  { constructor; [|constructor; [|constructor]]; (split; [apply wf_b_spec; vm_compute; reflexivity|split; reflexivity]). }
+  split; [apply covers_b_sound; vm_compute; reflexivity|]. split; [repeat constructor; lia|discriminate].
+Qed.
+Example C05_reencoded_differs :      (* the re-encoded dimensions really are different objects ... *)
+  map dim_of_iindex (shifted [ex_i0; ex_i1] [1; 2])
+  = [mkdim ([(0, [1; 3])], 1); mkdim ([(0, [1; 3]); (1, [0; 4])], 2)].
 Proof. vm_compute. reflexivity. Qed.
+Example C05_nontrivial :             (* ... and the cube is the same, with a non-missing reconstructed cell (1,1) *)
+  cells_eqb (ccube_agg 5 (map dim_of_iindex (shifted [ex_i0; ex_i1] [1; 2])) [2; 3] AMean h_eval ex_fact ex_w true)
+            (ccube_agg 5 (map dim_of_iindex [ex_i0; ex_i1]) [2; 3] AMean h_eval ex_fact ex_w true) = true
+  /\ cells_eqb (ccube_agg 5 (map dim_of_iindex [ex_i0; ex_i1]) [2; 3] AMean h_eval ex_fact ex_w true)
+       [[(q 3 1, false)]; [(q0, true)]; [(q0, true)]; [(q0, true)]; [(q 3 4, false)]; [(q0, true)]] = true.
+Proof. vm_compute. split; reflexivity. Qed.
